@@ -365,7 +365,7 @@ Section FixedLibIncl.
         * rewrite app_nil_r. exact HS.
         * exists s3, evs, (rev (map eb (pP ++ [en])) ++ base). split; [exact Hrun|]. split; [exact Happ|]. split; [exact HI3|].
           eapply Hfin3; eassumption.
-      + destruct (scss_link (db s) (ri r0) (bid hd) (bparent b) pH pP Hwf Hneq HcH HcP0) as (C & R & Uh & j & HP & HH & Hsc).
+      + destruct (scss_link (db s) (ri r0) (bid hd) (bparent b) pH pP Hwf L_id Hneq HcH HcP0) as (C & R & Uh & j & HP & HH & Hsc).
         { intros f t e0 Hu He0. exact (tail_disjoint_w U r0 cfg U_id U_up L_id L_num L_up (db s) pP (bparent b) HU Hnd HcP0 f t e0 Hu He0). }
         rewrite Hsc in Hsw. injection Hsw as <- <- <-.
         destruct (trigger_finishG s1 S b pP C R Uh j base HI1 Hb Hc HP) as (s3 & evs & Hrun & Happ & HI3 & Hk3).
